@@ -6,8 +6,11 @@ all idle / keep-alive connections of other clients are dropped.
 
 Run:  cd /tmp/wa_C13 && PYTHONPATH=/tmp/wa_C13 /venv/bin/python _finding/2/demo.py
 """
+import os as _os
+_TREE_UNDER_TEST = _os.environ.get("GVERIF_REPO") or _os.getcwd()   # the checkout under test (was the auditing agent's scratch worktree)
+
 import sys
-sys.path.insert(0, "/tmp/wa_C13")
+sys.path.insert(0, _TREE_UNDER_TEST)
 
 import os
 import signal
@@ -19,7 +22,7 @@ import tempfile
 import time
 
 import gunicorn
-assert gunicorn.__file__.startswith("/tmp/wa_C13/"), gunicorn.__file__
+assert gunicorn.__file__.startswith(_TREE_UNDER_TEST), gunicorn.__file__
 
 KEEPALIVE = 20
 ROUNDS = 3
@@ -76,7 +79,7 @@ def main():
     with open(os.path.join(tmp, "demoapp.py"), "w") as f:
         f.write(APP)
     port = free_port()
-    env = dict(os.environ, PYTHONPATH="/tmp/wa_C13" + os.pathsep + tmp)
+    env = dict(os.environ, PYTHONPATH=_TREE_UNDER_TEST + os.pathsep + tmp)
     proc = subprocess.Popen(
         [sys.executable, "-m", "gunicorn", "-k", "gthread", "-w", "1",
          "--threads", "2", "--keep-alive", str(KEEPALIVE),
@@ -84,7 +87,7 @@ def main():
          "--keyfile", "/tmp/wa_C13/examples/server.key",
          "-b", "127.0.0.1:%d" % port, "--chdir", tmp,
          "--log-level", "critical", "demoapp:app"],
-        env=env, cwd="/tmp/wa_C13")
+        env=env, cwd=_TREE_UNDER_TEST)
     hits = 0
     try:
         deadline = time.time() + 10
